@@ -14,6 +14,9 @@ Abstract cases (first field = kind, second = table spec `id:N | rw:N:SEQ | txt:T
   hist  SPEC STEP…        one private table instance through a history: `T:dna` translate, `W:seq` re-weight in
                           place, `S:i,j` swap the letters of entries i and j in place; a translation must depend
                           on the table as it is NOW
+Strings with letters other than A/C/G/T (N, U, gaps, letters outside ASCII) are judged too (class suffix
+`foreign-letters`): codons are framed by letters, and a complete codon that holds such a letter gives no residue
+(Props/C06 `translate_foreign_codon`).
 The concrete strings of a request are produced here (take / drop / map), i.e. by the functions the theorems
 are about.
 -/
@@ -77,8 +80,10 @@ def specAA (t : Table) (codon : Str) : Option Str :=
 per-codon reading of the table otherwise -/
 def specTranslation (t : Table) (k : TKind) (s : Str) : Option Str :=
   match k with
-  | .dflt id | .rw id => Spec.Ncbi.translation id s
-  | .txt => ((chunks3 s).mapM (specAA t)).map List.flatten
+  | .dflt id | .rw id =>
+    -- A/C/G/T strings: every codon must have its NCBI residue; other letters: such a codon gives nothing
+    if s.all acgtLetters.contains then Spec.Ncbi.translation id s else some (Spec.Ncbi.translationAny id s)
+  | .txt => some ((chunks3 s).flatMap fun c => match specAA t c with | some l => l | none => [])
 
 def outStr : Outcome Str → List String
   | .ok v => ["ok", String.ofList v]
@@ -114,7 +119,8 @@ def judgeSeqs (f : List String) (spec : String) (ss : List Str) (out : List Stri
       let knownId := match k with | .dflt id | .rw id => Spec.Ncbi.ids.contains id | .txt => false
       let wf := decide (WFTable t)
       let emptyT := emptyTable t && k == .txt
-      let dom := emptyT || ((knownId || (k == .txt && wf)) && ss.all fun s => decide (Acgt s))
+      let foreign := !(ss.all fun s => decide (Acgt s))
+      let dom := emptyT || (knownId || (k == .txt && wf))
       -- a default table must still be well formed (re-weighting keeps the code)
       let kind := f.headD ""
       let s0 := ss.headD []
@@ -152,7 +158,7 @@ def judgeSeqs (f : List String) (spec : String) (ss : List Str) (out : List Stri
       let emptyPiece := (kind == "split" || kind == "tail") && ss.any (·.isEmpty)
       { corr := corr, judge := if dom then some j else none,
         cls := (if triv then "triv:" else "") ++ kind ++ "/" ++ (if emptyT then "empty-table" else kt) ++ "/rem" ++ toString (s0.length % 3) ++
-               (if emptyPiece then "/empty-piece" else ""),
+               (if emptyPiece then "/empty-piece" else "") ++ (if foreign then "/foreign-letters" else ""),
         detail := if corr && j then "" else
           (if tableSame then "" else "TABLE HELD BY THE PROCESS ≠ REGENERATED TABLE ") ++ lineOf (model.flatten ++ ["expect"] ++ expect s0) }
   | st :: _ =>
@@ -203,7 +209,7 @@ def judgeHist (steps : List String) (out : List String) : Verdict :=
                 match specTranslation t .txt s with
                 | some x => ["ok", String.ofList x]
                 | none => ["?"]
-              go fuel more rest' (corr && o == m) (j && o == expect) (wf && decide (WFTable t) && decide (Acgt s))
+              go fuel more rest' (corr && o == m) (j && o == expect) (wf && decide (WFTable t))
                 (if o == m && o == expect then detail else lineOf (m ++ ["expect"] ++ expect))
             | _ => (false, false, wf, "reply shape")
           else (false, false, wf, "bad step")
